@@ -499,7 +499,7 @@ impl FileHistory {
         };
         for entry in self.mem.entries.iter().skip(first_new_entry) {
             let mut bytes = entry.as_bytes();
-            while let Some(i) = memchr::memchr2(b'\\', b'\n', bytes) {
+            while let Some(i) = memchr::memchr3(b'\\', b'\n', b'\r', bytes) {
                 let (head, tail) = bytes.split_at(i);
                 wtr.write_all(head)?;
 
@@ -508,13 +508,17 @@ impl FileHistory {
                     .expect("memchr guarantees i is a valid index");
                 if escapable_byte == b'\n' {
                     wtr.write_all(br"\n")?; // escaped line feed
+                } else if escapable_byte == b'\r' {
+                    // escaped carriage return (otherwise a trailing one is
+                    // stripped with the line terminator on load)
+                    wtr.write_all(br"\r")?;
                 } else {
                     debug_assert_eq!(escapable_byte, b'\\');
                     wtr.write_all(br"\\")?; // escaped backslash
                 }
                 bytes = tail;
             }
-            wtr.write_all(bytes)?; // remaining bytes with no \n or \
+            wtr.write_all(bytes)?; // remaining bytes with no \n, \r or \
             wtr.write_all(b"\n")?;
         }
         // https://github.com/rust-lang/rust/issues/32677#issuecomment-204833485
@@ -563,6 +567,9 @@ impl FileHistory {
                         }
                         b'\\' => {
                             s.push('\\'); // unescaped back slash
+                        }
+                        b'r' => {
+                            s.push('\r'); // unescaped carriage return
                         }
                         _ => {
                             // only line feed and back slash should have been escaped
